@@ -38,11 +38,11 @@ type inst struct {
 // sentinels outside the base directory: nothing may read, list or change them.
 func sentinels(base string) []fsx.Op {
 	return []fsx.Op{
-		{K: "WriteFile", P: "/secret", Data: "SECRET", Perm: 0o644},
+		{K: "WriteFile", P: "/secret", Data: "LEAK:Zq7-secret", Perm: 0o644},
 		{K: "MkdirAll", P: base + "2", Perm: 0o755}, // shares the name prefix of the base
-		{K: "WriteFile", P: base + "2/x", Data: "B2", Perm: 0o644},
-		{K: "WriteFile", P: "/w/outside", Data: "OUT", Perm: 0o644},
-		{K: "Mkdir", P: "/a", Perm: 0o755}, {K: "WriteFile", P: "/a/b", Data: "ROOT-A-B", Perm: 0o644},
+		{K: "WriteFile", P: base + "2/x", Data: "LEAK:Zq7-sibling", Perm: 0o644},
+		{K: "WriteFile", P: "/w/outside", Data: "LEAK:Zq7-outside", Perm: 0o644},
+		{K: "Mkdir", P: "/a", Perm: 0o755}, {K: "WriteFile", P: "/a/b", Data: "LEAK:Zq7-root-a-b", Perm: 0o644},
 	}
 }
 
@@ -236,7 +236,8 @@ func (in *inst) step(c *vt.Ctx, o fsx.Op) *vt.Deviation {
 		return mk("escape-write", fmt.Sprintf("outside the base directory %s changed (%s): %q -> %q", p, f, l, r))
 	}
 	// confinement of reads: no value may carry sentinel content
-	for _, leak := range []string{"SECRET", "B2", "OUT", "ROOT-A-B"} {
+	// (the sentinel contents are strings no generated name, path or content can contain)
+	for _, leak := range []string{"LEAK:Zq7-"} {
 		if strings.Contains(ow.Val, leak) && !strings.Contains(or.Val, leak) {
 			return mk("escape-read", "the call returned content of a file outside the base directory")
 		}
